@@ -161,6 +161,8 @@ def _constructive(rng, A, heavy, multi, L, low=()):
     state = {"n": 0}
 
     rings2 = [r for r in ("[Ring2]", "[=Ring2]") if r in Aset]
+    branches2 = [b for b in ("[Branch2]", "[=Branch2]", "[#Branch2]") if b in Aset]
+    maxdepth = rng.choice((1, 2, 3, 3, 6, 12))
 
     def ring_to(cur, target):
         q = cur - target - 1
@@ -185,10 +187,13 @@ def _constructive(rng, A, heavy, multi, L, low=()):
                 if rng.random() < 0.15 and cur > 0:
                     cands = list(range(0, cur))          # any earlier atom, other fragments included
                 w += ring_to(cur, rng.choice(cands))
-            elif cur is not None and t < pr + pb and depth < 3 and branches:
-                inner = body(rng.randint(1, 6), depth + 1, roots + [cur])
-                if inner and len(inner) <= 16 and idx[len(inner) - 1] is not None:
-                    w += [rng.choice(branches), idx[len(inner) - 1]] + inner
+            elif cur is not None and t < pr + pb and depth < maxdepth and branches:
+                inner = body(rng.randint(1, 6) if rng.random() < 0.85 else rng.randint(17, 40), depth + 1, roots + [cur])
+                q = len(inner) - 1
+                if inner and q <= 15 and idx[q] is not None:
+                    w += [rng.choice(branches), idx[q]] + inner
+                elif inner and branches2 and q <= 255 and idx[q // 16] is not None and idx[q % 16] is not None:
+                    w += [rng.choice(branches2), idx[q // 16], idx[q % 16]] + inner     # two index symbols
                 # after the branch the chain continues from the same atom
             else:
                 w.append(rng.choice(atoms))
